@@ -17,7 +17,8 @@ OBLIGATIONS = ["maxsum_factor_marginal_partial", "maxsum_select_value_partial", 
 N_QUICK, N_THOROUGH = 250, 3000
 PARALLEL = 8
 SHARD = 20
-RULE = ("random forest-shaped factor graphs (85%; 15% with one extra cycle-closing factor, model validation only) "
+RULE = ("6% large-magnitude forests (integer costs 10^5..2^24, sign following the objective; exact in binary64); "
+        "random forest-shaped factor graphs (85%; 15% with one extra cycle-closing factor, model validation only) "
         "of 1-7 variables, domain sizes 1/2/4, integer n-ary (arity 1-3) cost tables, optional integer variable "
         "costs and initial values, min and max, unique optimum enforced for the forests; algorithm maxsum "
         "(synchronous, over the real SynchronousComputationMixin) or amaxsum, damping 0 (a few cases 0.5: model "
@@ -185,10 +186,50 @@ def _brute(c):
     return arg, best
 
 
+def _gen_large(rng):
+    """large-magnitude stream (6 %): forests with integer costs of magnitude 10^5 .. 2^24, positive when minimising
+    and negative when maximising (sometimes mixed), so that every marginal lies far beyond any "big number" used
+    in place of infinity (seeded change C05-m3: optimum initialised with +-10000).  Exactness in binary64: on a
+    forest a message depends only on the subtree behind its edge, so its denominator divides the product of the
+    domain sizes on one path (<= 4^7 = 2^14); |beliefs| < 2^29 and the running sum of costs_for_factor < 2^35,
+    i.e. < 50 significant bits everywhere.  stability 0 (no float division), damping 0, forests only."""
+    nv, doms, facs = _gen_graph(rng, True)
+    mode = rng.choice(["min", "max"])
+    mag = rng.choice([10**5, 2**20, 2**24])
+    mixed = rng.random() < 0.15
+    sign = 1 if mode == "min" else -1
+
+    def cost():
+        v = rng.randint(mag // 8, mag)
+        return v * rng.choice([-1, 1]) if mixed else sign * v
+    vs = [dict(dom=doms[i], unary=[cost() for _ in range(doms[i])] if rng.random() < 0.3 else None, init=None)
+          for i in range(nv)]
+    fs = []
+    for sc in facs:
+        size = 1
+        for v in sc:
+            size *= doms[v]
+        fs.append(dict(scope=sc, tab=[cost() for _ in range(size)]))
+    algo = rng.choice(["maxsum", "maxsum", "amaxsum"])
+    c = dict(algo=algo, mode=mode, vars=vs, facs=fs, stab="0", damp="0", dnodes=rng.choice(["both", "none"]),
+             start=rng.choice(["leafs", "leafs_vars", "all"]) if algo == "maxsum" else "all",
+             seed=rng.randrange(10**9), steps=None if rng.random() < 0.8 else rng.randint(3, 60))
+    c["forest"] = _is_forest(nv, [f["scope"] for f in fs])
+    if not c["forest"] or len(_brute(c)[0]) != 1:
+        return None
+    return c
+
+
 def gen(rng, n, tier):
     cases = []
     while len(cases) < n:
-        if rng.random() < 0.04:
+        r0 = rng.random()
+        if 0.04 <= r0 < 0.10:
+            c = _gen_large(rng)
+            if c is not None:
+                cases.append(c)
+            continue
+        if r0 < 0.04:
             # chains with near-constant large costs: every relative change is small, so the
             # stability cut-off (approx_match + SAME_COUNT) is exercised
             nv = rng.choice([3, 4, 5, 6])
